@@ -327,9 +327,33 @@ def check(fx, rep, tier):
     import c13
     c13.check_scanners(rep, crate, 'full', rule='R14.8', prefix='')
     rep.floor('R14.8', 21, 'scanner verdict instances (3 scanners x 7)')
+    # ---- R14.13 an empty comment (`#` alone on its line - what an empty `///` line becomes) parses
+    rep.rule('R14.13', 'an empty comment parses back: the comment recogniser puts no lower bound on the length of the comment text')
+    n13 = 0
+    for fn, n, impl in A.all_fns(fx.tpl, IDL + '/parse/'):
+        if n['name'] != 'comment_def':
+            continue
+        n13 += 1
+        lower = []
+        for x in A.nodes(n.get('body') or []):
+            if x.get('k') == 'call' and (x['func'] if isinstance(x['func'], str) else A.text(x['func'])).split('::')[-1] in ('take_while', 'take_till', 'take_until', 'repeat', 'take'):
+                a0 = (x.get('args') or [None])[0]
+                if a0 is not None and a0.get('k') == 'range' and a0.get('start') and a0['start'].get('text', '0').strip('usize_') not in ('0', ''):
+                    lower.append(A.text(x)[:60])
+                if a0 is not None and a0.get('k') == 'int' and a0.get('text', '0') not in ('0',):
+                    lower.append(A.text(x)[:60])
+            if x.get('k') == 'call' and (x['func'] if isinstance(x['func'], str) else A.text(x['func'])).split('::')[-1] in ('take_while1', 'take_till1', 'take_until1', 'not_line_ending1', 'till_line_ending1'):
+                lower.append(A.text(x)[:60])
+        rep.check(not lower, 'R14.13', 'comment_def|empty-comment-accepted', '%s:%s' % (fn, n.get('line')),
+                  'comment_def accepts a `#` that is followed directly by the end of the line',
+                  'comment_def requires at least one byte of comment text (%s): a bare `#` line - what Display writes for an empty comment, and what an empty `///` line becomes - is rejected' % '; '.join(lower))
+    if not n13:
+        rep.bad('R14.13', 'anchor', IDL + '/parse/mod.rs', 'comment_def not found')
     # ---- R14.11 the token strings Display can write (white space between tokens, comment lines before elements) are accepted (imported from C13, R13.11)
     rep.rule('R14.11', 'rendered text parses back at the phrase level: the token language extracted from the parser functions contains every token string the grammar '
              'requires (white space between any two tokens, comment lines before the interface, members, fields and variants) and nothing outside the grammar (rule R13.11 of C13)')
     c13.check_grammar(fx, rep, rule='R14.11')
     rep.floor('R14.11', 4, 'grammar inclusion verdicts (2 productions x 2 directions)')
+    import imports as _imp
+    _imp.layer(fx, rep, 'C14')
     return META
